@@ -35,6 +35,8 @@ func runC18(c *report.Ctx) {
 	checkRestoreAutomaton(c)
 	c.Clause("4 credentials")
 	checkCredentials(c)
+	checkUpdateCredentialsGuard(c)
+	checkErrorTypeSanitiser(c) // /restore/error and /init/error pass the reported type through the sanitiser
 }
 
 func checkHandleRestore(c *report.Ctx) {
